@@ -24,11 +24,17 @@ from .shapes_common import Fr
 PID = "C03"
 PROOF_FILES = ["theories/Props/C03.v", "theories/Proofs/SupportA.v", "theories/Proofs/SupportB.v",
                "theories/Proofs/MeshClimb.v", "theories/Spec/Shapes.v", "theories/Base/RVec2.v",
-               "theories/Checker/ShapesCert.v", "theories/Checker/ShapesBridge.v", "theories/Proofs/MeshClimbGen.v"]
+               "theories/Checker/ShapesCert.v", "theories/Checker/ShapesBridge.v", "theories/Proofs/MeshClimbGen.v",
+               "theories/Checker/ShapesMeshCone.v"]
 FUEL = 100000
 DIR_CLASSES = ["random", "random", "axis", "sign", "sign", "pow2", "pow2", "shape_axis", "shape_orth"]
 EPS10 = Fr(10) / Fr(2 ** 52)
 CERTS_PER_GROUP = 5   # answers per case and observable submitted to the Coq checker (feature directions first)
+MESH_CONE_BUDGET = dict(quick=12, thorough=80)   # meshes per run whose cone certificate is built and checked
+MESH_CONE_HEADER = """From Coq Require Import QArith List.
+From D3 Require Import Base.Vec Checker.Shapes Checker.ShapesMeshCone.
+Import ListNotations.
+"""
 CASE_CPU = 40        # seconds of user CPU time one case may burn in a shared worker (normal: < 1 s)
 CONFIRM_CPU = 600    # ... when re-run alone, before it is reported as non-terminating
 
@@ -647,12 +653,12 @@ def run(tier, seed, replay=None):
         "certificates speak about the shape expression of harness/narrow.py: c + sum of segments / ellipsoidal discs whose axis vectors are the binary64 products size*column (relative 1.1e-16 from the exact products), the disk frame is completed in floating point; this perturbs the set by < 1e-15*L, far below 1e-9*L",
         "membership 'within 1e-9*L of the set' in the Python oracle is tested in exact local coordinates M^-1 (p - c); for the cone the tolerance is scaled by (1 + r/h), for ellipsoid / ellipse by the gauge (tau / smallest radius); the Coq certificate uses the Euclidean distance to an explicit point of the set",
         "IEEE rounding is not modelled by the theorems; its effect is only measured here against 1e-9*L",
-        "mesh hill climbing: the global-maximum theorem carries the hypothesis LocalMaxGlobal on the input mesh (see Props/C03.v); coverage.local_max_global reports, for the generated meshes and directions, the exact smallest delta for which it holds; scipy's ConvexHull (inside make_convex_mesh) is used to build inputs",
+        "mesh hill climbing: the global-maximum theorem carries the hypothesis LocalMaxGlobal on the input mesh (see Props/C03.v); for the generated meshes (up to a budget, <= 30 vertices) that hypothesis is PROVED per mesh by a cone certificate checked in Coq (coverage.mesh_cone_certificates: C03_mesh_cone_cert_sound, all directions at once); coverage.local_max_global additionally reports, per mesh and direction, the exact smallest delta for which LocalMaxGlobal / LocalMaxGlobalS hold; scipy's ConvexHull (inside make_convex_mesh) is used to build inputs",
         "coverage.impl_line_coverage: source lines of /repo executed by this run's inputs (interpreted re-execution of the numba functions' source under sys.settrace in the workers)",
         "harness/compat.py import shim; numpy/numba/CPython/BLAS",
     ]
     R.check_proofs(PROOF_FILES, build_targets=["theories/Props/C03.vo", "theories/Model/ShapesRun.vo",
-                                               "theories/Checker/ShapesCert.vo"])
+                                               "theories/Checker/ShapesCert.vo", "theories/Checker/ShapesMeshCone.vo"])
 
     cases = []
     corpus = cm.VERIF / "corpus" / PID
@@ -785,6 +791,46 @@ def run(tier, seed, replay=None):
     lmg["meaning"] = ("hypotheses of C03_mesh_support_partial / C03_mesh_support_shortcuts_partial evaluated exactly for the first 8 "
                       "directions of every generated mesh; delta in units of x.d, tolerance 1e-9*L")
     R.cov["local_max_global"] = lmg
+
+    # per-mesh proof of the hypothesis: cone certificates checked by Coq (Checker/ShapesMeshCone.v)
+    from . import shapes_meshcone as mc
+    mcs = dict(meshes=0, submitted=0, accepted=0, no_certificate_flat_vertex=0, too_large_not_submitted=0, worst_M=0.0,
+               theorem="Checker/ShapesMeshCone.v cone_cert_sound: LocalMaxGlobal holds for EVERY direction with delta = M*10*eps; "
+                       "with C03_mesh_support_partial the answer is maximal up to M*10*eps for every direction and start vertex")
+    blocks, owners = [], []
+    budget = MESH_CONE_BUDGET[tier if tier in MESH_CONE_BUDGET else "quick"]
+    for c, r in zip(cases, results):
+        if c["shape"]["kind"] != "mesh" or "connections" not in r:
+            continue
+        mcs["meshes"] += 1
+        n = len(c["shape"]["vs"])
+        if n > 30 or len(blocks) >= budget:
+            mcs["too_large_not_submitted"] += 1
+            continue
+        conn = {int(a): [int(x) for x in b] for a, b in r["connections"]}
+        try:
+            out = mc.cone_certificate(c["shape"]["vs"], conn)
+        except Exception as e:  # untrusted construction
+            R.notes.append(dict(cone_certificate_construction_failed=f"{type(e).__name__}: {str(e)[:200]}"))
+            continue
+        if out is None:
+            mcs["no_certificate_flat_vertex"] += 1
+            continue
+        cert_rows, M = out
+        Mq = Fr(math.ceil(float(M) * 1.001 * 64) + 1, 64)
+        V, C, CE, MQ = mc.coq_expr(c["shape"]["vs"], r["connections"], cert_rows, Mq)
+        blocks.append(([("cvs", V), ("ccn", C), ("cce", CE)], f"cone_cert cvs ccn cce {MQ}"))
+        owners.append(float(Mq))
+    mcs["submitted"] = len(blocks)
+    try:
+        outs = sc.coq_eval_blocks(PID, MESH_CONE_HEADER, blocks, tag="cone", per_file=max(1, len(blocks) // cm.NCPU + 1), timeout=1500)
+        for o, Mf in zip(outs, owners):
+            if o.strip() == "true":
+                mcs["accepted"] += 1
+                mcs["worst_M"] = max(mcs["worst_M"], Mf)
+    except RuntimeError as e:
+        R.notes.append(dict(cone_certificate_evaluation_failed=str(e)[:500]))
+    R.cov["mesh_cone_certificates"] = mcs
 
     cov = line_coverage(hits, TRACE_SCOPE)
     R.cov["impl_line_coverage"] = dict(
